@@ -55,3 +55,4 @@ func T2(a string, p *P) int { return work(len(a)) + 800 }
 
 //go:noinline
 func TV(a string, xs ...string) int { return work(len(a)) + work(len(xs)) + 900 }
+const Pkg = "github.com/tencent/goom/zzverif/corpus/sig"
